@@ -232,6 +232,9 @@ def obligations(tier):
                     if s == "Q1":
                         out += specs("C08.model", [{"tomo": tomo, "sysname": s, "m": m, "flag": flag, "tester": "mixed", "variant": "all"}], ob_model, 3)
     for flag in (True, False):
+        # composite system (2 qubits): dimension of the whole system vs of its parts
+        out += specs("C08.model", [{"tomo": "povmt", "sysname": "Q2", "m": 2, "flag": flag, "tester": "small", "variant": "all"}], ob_model, 4)
+        out += specs("C08.model", [{"tomo": "qst", "sysname": "Q2", "m": 0, "flag": flag, "tester": "small", "variant": "all"}], ob_model, 4)
         out += specs("C08.model", [{"tomo": "qmpt", "sysname": "T1", "m": 2, "flag": flag, "tester": "small", "variant": "all"}], ob_model, 8)
         if tier == "thorough":
             out += specs("C08.model", [{"tomo": "qmpt", "sysname": "Q2", "m": 2, "flag": flag, "tester": "small", "variant": "all"}], ob_model, 20)
